@@ -6,7 +6,7 @@
 (* that hop given the server's own script (`exp`: the URL the server       *)
 (* redirected to / the start URL; independent of the client's state):      *)
 (*   at      where the request was delivered   [host, scheme, port]        *)
-(*   exp     [host, scheme, port, targets, authority, absolute]            *)
+(*   exp     [host, scheme, port, targets, authority, absolutes]           *)
 (*   target  the request-target on the wire                                *)
 (*   hosts   the values of all Host fields                                 *)
 (*   auth    owners of the credentials in all Authorization fields          *)
@@ -51,7 +51,8 @@ Delivered   == Sent => (cur.at.host = cur.exp.host /\ cur.at.scheme = cur.exp.sc
 \* request-target: path?query of the URL being fetched; the absolute URL iff talking to a proxy without a tunnel
 \* (exp.targets: the acceptable spellings of the normalized path?query - one, except for URL-text classes where
 \* normalization admits several, e.g. "+" or "%20" for a space in the query)
-TargetOK    == Sent => cur.target \in (IF cur.proxied /\ cur.exp.scheme = "http" THEN {cur.exp.absolute} ELSE Range(cur.exp.targets))
+\* (the absolute form with the URL's user-info in it is tolerated - lenient reading; RFC 7230 2.7.1 forbids it)
+TargetOK    == Sent => cur.target \in Range(IF cur.proxied /\ cur.exp.scheme = "http" THEN cur.exp.absolutes ELSE cur.exp.targets)
 \* exactly one Host field, naming that URL's host and non-default port
 OneHostOK   == Sent => cur.hosts = <<cur.exp.authority>>
 \* credentials of one host are not sent to another
@@ -79,13 +80,22 @@ Bit(m, k) == (m \div Pow2(k - 1)) % 2 = 1
 B(old, k) == IF Bit(old, k) \/ Viol(k) THEN Pow2(k - 1) ELSE 0
 Mask(old) == B(old, 1) + B(old, 2) + B(old, 3) + B(old, 4) + B(old, 5) + B(old, 6) + B(old, 7) + B(old, 8) + B(old, 9)
 
+\* ... and for the per-request clauses 1..7 the line at which each was first violated, 4 bits per clause
+Pow16(k) == CASE k = 0 -> 1 [] k = 1 -> 16 [] k = 2 -> 256 [] k = 3 -> 4096 [] k = 4 -> 65536 [] k = 5 -> 1048576
+              [] k = 6 -> 16777216
+Digit(x, k) == (x \div Pow16(k - 1)) % 16
+D(old, k) == Pow16(k - 1) * (IF Digit(old, k) # 0 THEN Digit(old, k)
+                            ELSE IF Viol(k) THEN (IF l < 15 THEN l ELSE 15) ELSE 0)
+Lines(old) == D(old, 1) + D(old, 2) + D(old, 3) + D(old, 4) + D(old, 5) + D(old, 6) + D(old, 7)
+
+ASSUME \A i \in (2 * NT + 1)..(3 * NT) : TLCSet(i, 0)
+
 Record ==
   /\ IF TLCGet(tid) < l THEN TLCSet(tid, l) ELSE TRUE
-  /\ LET reg == TLCGet(NT + tid)
-         m   == Mask(reg \div 100000) IN
-     IF m # reg \div 100000 THEN TLCSet(NT + tid, m * 100000 + (IF reg = 0 THEN l ELSE reg % 100000)) ELSE TRUE
+  /\ LET m == Mask(TLCGet(NT + tid)) IN IF m # TLCGet(NT + tid) THEN TLCSet(NT + tid, m) ELSE TRUE
+  /\ LET x == Lines(TLCGet(2 * NT + tid)) IN IF x # TLCGet(2 * NT + tid) THEN TLCSet(2 * NT + tid, x) ELSE TRUE
 
 Post == PrintT(<<"VERDICTS_BEGIN",
-                 [i \in 1..NT |-> <<TLCGet(i) - 1, TLCGet(NT + i) \div 100000, TLCGet(NT + i) % 100000>>],
+                 [i \in 1..NT |-> <<TLCGet(i) - 1, TLCGet(NT + i), TLCGet(2 * NT + i)>>],
                  "VERDICTS_END">>)
 =============================================================================
